@@ -111,7 +111,7 @@ fn cmd_hashes(args: &[String]) -> i32 {
         threads,
         verif_dir: ".".into(),
     };
-    for s in run_batch(&cfg) {
+    for s in run_batch(&cfg, usize::MAX).0 {
         println!("{} {} {} {}", s.world, s.run, hex(s.out.loghash), s.out.violations.len());
     }
     0
@@ -178,7 +178,7 @@ fn cmd_check(args: &[String]) -> i32 {
     };
     println!("cwsim check property={} tier={} seed={} runs={} monitors={}", prop, tier, seed, runs, mon);
     let t0 = Instant::now();
-    let sums = run_batch(&cfg);
+    let (sums, agg) = run_batch(&cfg, 600);
 
     // determinism self-check: re-execute the first runs and compare event-log hashes
     let mut determinism = "ok".to_string();
@@ -198,13 +198,37 @@ fn cmd_check(args: &[String]) -> i32 {
         determinism = format!("ok ({} runs re-executed, identical event-log hashes)", n);
     }
 
+    // systematic single-fault sweep over sampled traces (crash-point enumeration at sub-call boundaries)
+    let fault_props = matches!(prop.as_str(), "C05" | "C11" | "C12");
+    let (k_traces, per_trace) = match (tier.as_str(), fault_props) {
+        ("thorough", true) => (400usize, 120usize),
+        ("thorough", false) => (80, 60),
+        (_, true) => (24, 40),
+        _ => (0, 0),
+    };
+    let mut sweep_stats = SweepStats { traces: 0, sites: 0, reexecutions: 0 };
+    let mut extra: Vec<RunSummary> = vec![];
+    if k_traces > 0 && arg_val(args, "--no-sweep").is_none() {
+        let picked: Vec<trace::Trace> = sums
+            .iter()
+            .filter(|s| s.out.violations.is_empty() && s.out.nontrivial)
+            .take(k_traces)
+            .map(|s| s.out.trace.clone())
+            .collect();
+        let (outs, st) = sweep(&picked, &mon, threads, per_trace);
+        sweep_stats = st;
+        for o in outs {
+            extra.push(RunSummary { world: o.trace.world.clone(), run: o.trace.run, out: o });
+        }
+    }
     let ff = load_findings(&format!("{}/known_findings.json", dir));
     let mut known_seen: BTreeMap<String, u64> = BTreeMap::new();
     let mut known_what: BTreeMap<String, String> = BTreeMap::new();
     // first unknown violation per class
     let mut unknown: BTreeMap<String, (usize, trace::Violation)> = BTreeMap::new();
     let mut unknown_total = 0usize;
-    for (i, s) in sums.iter().enumerate() {
+    let all: Vec<&RunSummary> = sums.iter().chain(extra.iter()).collect();
+    for (i, s) in all.iter().enumerate() {
         for v in &s.out.violations {
             if mon != "ALL" && v.property != prop {
                 continue;
@@ -228,7 +252,7 @@ fn cmd_check(args: &[String]) -> i32 {
     let mut exit = 0;
     let mut idx = 0;
     for (class, (i, v)) in &unknown {
-        let s = &sums[*i];
+        let s = all[*i];
         let (mt, mv) = minimise(&s.out.trace, v, &mon, &ff, 400);
         let mo = replay_in(&mt, &mon);
         let rf = ReplayFile {
@@ -269,11 +293,21 @@ fn cmd_check(args: &[String]) -> i32 {
         level_of(&prop),
         &rule_of(&prop),
         &sums,
+        &agg,
         unknown_total,
         &known_seen,
         wall,
         &determinism,
-        json!({"monitors": mon, "violation_classes": unknown.keys().collect::<Vec<_>>()}),
+        json!({
+            "monitors": mon,
+            "violation_classes": unknown.keys().collect::<Vec<_>>(),
+            "single_fault_sweep": {
+                "traces": sweep_stats.traces,
+                "dispatch_sites_enumerated": sweep_stats.sites,
+                "reexecutions_with_one_injected_fault": sweep_stats.reexecutions,
+                "faults_fired_in_sweep": extra.iter().map(|e| e.out.stats.get("fault_early_fired").cloned().unwrap_or(0) + e.out.stats.get("fault_late_fired").cloned().unwrap_or(0)).sum::<u64>(),
+            }
+        }),
     );
     if mon == prop {
         let _ = std::fs::create_dir_all(format!("{}/evidence", dir));
@@ -286,7 +320,7 @@ fn cmd_check(args: &[String]) -> i32 {
     let cov = &ev["coverage"];
     println!(
         "runs={} nontrivial={} distinct_signatures={} states={} txs={} committed_ratio={:.2} wall={:.1}s",
-        sums.len(),
+        agg.runs,
         cov["nontrivial_runs"],
         cov["distinct_nontrivial"],
         cov["states"],
